@@ -204,4 +204,384 @@ theorem T_frame (plan : Plan) : Frame T plan :=
 theorem runScript_T (cfg : Cfg) (sc : Script) (plan : Plan) (fs0 : FS) (e : Nat) : T (runScript cfg sc plan fs0 e).2 :=
   frame_runScript (T_frame plan) cfg sc fs0 e (T_start fs0 e)
 
+/-! ### without `overwrite_part` no unlink of the part file precedes its creation -/
+
+/-- the first event with an effect is an unlink of the part file -/
+def headUnlink : List Ev → Bool
+  | [] => false
+  | .noop :: t => headUnlink t
+  | .unlinkPart :: _ => true
+  | _ :: _ => false
+
+/-- the recorded events extend `base` -/
+def Pre (base : List Ev) (m : M) : Prop := ∃ l, m.tr = base ++ l
+
+theorem exe_tr (m : M) (ev : Ev) : (exe m ev).2.tr = m.tr ∨ (exe m ev).2.tr = m.tr ++ [ev] := by
+  unfold exe; split
+  · exact Or.inl rfl
+  · exact Or.inr rfl
+
+theorem Pre_of_tr (base : List Ev) (m m' : M) (h : Pre base m) (ht : m'.tr = m.tr ∨ ∃ ev, m'.tr = m.tr ++ [ev]) : Pre base m' := by
+  obtain ⟨l, hl⟩ := h
+  rcases ht with ht | ⟨ev, ht⟩
+  · exact ⟨l, by rw [ht, hl]⟩
+  · exact ⟨l ++ [ev], by rw [ht, hl, List.append_assoc]⟩
+
+theorem env_tr (m : M) (a : Act) : (m.env a).tr = m.tr := (env_fields m a).2.1
+
+theorem call_tr (plan : Plan) (m : M) (ev : Ev) :
+    (call plan m ev).2.tr = m.tr ∨ ∃ ev', (call plan m ev).2.tr = m.tr ++ [ev'] := by
+  unfold call
+  cases plan m.n with
+  | fail e => exact Or.inl rfl
+  | pass => rcases exe_tr m ev with h | h; exact Or.inl h; exact Or.inr ⟨ev, h⟩
+  | appear =>
+    rcases exe_tr (m.env .appear) ev with h | h
+    · exact Or.inl (by rw [h, env_tr])
+    · exact Or.inr ⟨ev, by rw [h, env_tr]⟩
+
+theorem callClose_tr (plan : Plan) (m : M) :
+    (callClose plan m).2.tr = m.tr ∨ ∃ ev', (callClose plan m).2.tr = m.tr ++ [ev'] := by
+  unfold callClose
+  cases plan m.n with
+  | fail e => dsimp only; split; exact Or.inr ⟨_, rfl⟩; exact Or.inl rfl
+  | pass => rcases exe_tr m .close with h | h; exact Or.inl h; exact Or.inr ⟨_, h⟩
+  | appear =>
+    rcases exe_tr (m.env .appear) .close with h | h
+    · exact Or.inl (by rw [h, env_tr])
+    · exact Or.inr ⟨_, by rw [h, env_tr]⟩
+
+theorem callStat_tr (plan : Plan) (m : M) : (callStat plan m).2.tr = m.tr := by
+  unfold callStat
+  cases plan m.n with
+  | fail e => dsimp only; split <;> rfl
+  | pass => rfl
+  | appear => exact env_tr m _
+
+theorem Pre_frame (base : List Ev) (plan : Plan) : Frame (Pre base) plan := by
+  refine ⟨fun m ev h => Pre_of_tr base m _ h (call_tr plan m ev), fun m h => Pre_of_tr base m _ h (callClose_tr plan m),
+    fun m h => Pre_of_tr base m _ h (Or.inl (callStat_tr plan m)), ?_, ?_, ?_, fun m h => h⟩
+  · intro m ev h
+    unfold fcall; split
+    · exact Pre_of_tr base m _ h (call_tr plan m ev)
+    · cases plan m.n with
+      | fail e => exact h
+      | pass => exact h
+      | appear => exact Pre_of_tr base m _ h (Or.inl (env_tr m _))
+  · intro m h
+    unfold fclose; split
+    · exact Pre_of_tr base m _ h (callClose_tr plan m)
+    · cases plan m.n with
+      | fail e => exact h
+      | pass => exact h
+      | appear => exact Pre_of_tr base m _ h (Or.inl (env_tr m _))
+  · intro cfg m h
+    unfold rmPart; split
+    · exact Pre_of_tr base m _ h (call_tr plan m .unlinkPart)
+    · exact h
+
+theorem call_none_tr (plan : Plan) (m : M) (ev : Ev) (h : (call plan m ev).1 = none) :
+    (call plan m ev).2.tr = m.tr ++ [ev] := by
+  unfold call at h ⊢
+  cases hp : plan m.n with
+  | fail e => simp [hp] at h
+  | pass =>
+    simp only [hp] at h ⊢
+    unfold exe at h ⊢
+    split <;> simp_all
+  | appear =>
+    simp only [hp] at h ⊢
+    unfold exe at h ⊢
+    split <;> simp_all [env_tr]
+
+theorem call_some_tr (plan : Plan) (m : M) (ev : Ev) (e : Errno) (h : (call plan m ev).1 = some e) :
+    (call plan m ev).2.tr = m.tr := by
+  unfold call at h ⊢
+  cases hp : plan m.n with
+  | fail e => rfl
+  | pass =>
+    simp only [hp] at h ⊢
+    unfold exe at h ⊢
+    split <;> simp_all
+  | appear =>
+    simp only [hp] at h ⊢
+    unfold exe at h ⊢
+    split <;> simp_all [env_tr]
+
+/-- `_open_part_file` from a state in which nothing has happened yet: afterwards still nothing has
+    happened, or the first event is the creation of the part file -/
+theorem openPartFile_shape (cfg : Cfg) (plan : Plan) (m : M) (p : Nat) (c : Bool) (h0 : m.tr = []) :
+    (openPartFile cfg plan m p c).2.tr = [] ∨ Pre [Ev.openPart true true p] (openPartFile cfg plan m p c).2 := by
+  have F := Pre_frame [Ev.openPart true true p] plan
+  unfold openPartFile
+  cases h1 : call plan m (.openPart true true p) with
+  | mk r1 m1 =>
+    cases r1 with
+    | some e =>
+      left
+      have := call_some_tr plan m (.openPart true true p) e (by rw [h1])
+      rw [h1] at this; simpa [h0] using this
+    | none =>
+      right
+      have e1 : Pre [Ev.openPart true true p] m1 := by
+        have := call_none_tr plan m (.openPart true true p) (by rw [h1])
+        rw [h1] at this
+        exact ⟨[], by simpa [h0] using this⟩
+      dsimp only
+      have e2 := F.call m1 .noop e1
+      cases h2 : call plan m1 .noop with
+      | mk r2 m2 =>
+        rw [h2] at e2
+        cases r2 with
+        | some e =>
+          dsimp only
+          exact F.rm cfg _ (F.call m2 _ e2)
+        | none =>
+          dsimp only
+          cases c with
+          | false => simp only [Bool.false_eq_true, if_false]; exact e2
+          | true =>
+            simp only [if_true]
+            have e3 := F.call m2 (.chmodPart p) e2
+            cases h3 : call plan m2 (.chmodPart p) with
+            | mk r3 m3 =>
+              rw [h3] at e3
+              cases r3 with
+              | some e =>
+                dsimp only
+                exact F.rm cfg _ (F.callClose m3 e3)
+              | none => exact e3
+
+theorem setup_shape (cfg : Cfg) (plan : Plan) (m : M) (hop : cfg.overwritePart = false) (h0 : m.tr = []) :
+    (setup cfg plan m).2.tr = [] ∨ ∃ p, Pre [Ev.openPart true true p] (setup cfg plan m).2 := by
+  unfold setup
+  split
+  · exact Or.inl h0
+  · simp only [hop, Bool.false_and, Bool.false_eq_true, if_false]
+    cases cfg.perms with
+    | some p =>
+      dsimp only
+      rcases openPartFile_shape cfg plan m p true h0 with h | h
+      · exact Or.inl h
+      · exact Or.inr ⟨p, h⟩
+    | none =>
+      dsimp only
+      have hs := callStat_tr plan m
+      cases h2 : callStat plan m with
+      | mk rs m2 =>
+        rw [h2] at hs
+        simp only at hs
+        cases rs with
+        | error e => exact Or.inl (by simpa [h0] using hs)
+        | ok v =>
+          cases v with
+          | some md =>
+            rcases openPartFile_shape cfg plan m2 md true (by rw [hs, h0]) with h | h
+            · exact Or.inl h
+            · exact Or.inr ⟨md, h⟩
+          | none =>
+            rcases openPartFile_shape cfg plan m2 RW_PERMS false (by rw [hs, h0]) with h | h
+            · exact Or.inl h
+            · exact Or.inr ⟨RW_PERMS, h⟩
+
+/-- **Without `overwrite_part` the transliteration never removes a part file it did not create**: under
+    every plan, no unlink of the part file precedes its creation -/
+theorem runScript_headUnlink (cfg : Cfg) (sc : Script) (plan : Plan) (fs0 : FS) (e : Nat) (hop : cfg.overwritePart = false) :
+    headUnlink (runScript cfg sc plan fs0 e).2.tr = false := by
+  have hsh := setup_shape cfg plan (M.start fs0 e) hop rfl
+  have key : ∀ m : M, (m.tr = [] ∨ ∃ p, Pre [Ev.openPart true true p] m) → headUnlink m.tr = false := by
+    intro m h
+    rcases h with h | ⟨p, l, h⟩
+    · rw [h]; rfl
+    · rw [h]; rfl
+  unfold runScript
+  cases h1 : setup cfg plan (M.start fs0 e) with
+  | mk r1 m1 =>
+    rw [h1] at hsh
+    cases r1 with
+    | some x => exact key m1 hsh
+    | none =>
+      dsimp only
+      rcases hsh with h | ⟨p, h⟩
+      · -- a successful setup() has created the part file
+        exfalso
+        obtain ⟨sok, _⟩ := setup_spec cfg fs0 e plan
+        have := (sok (by rw [h1])).tr
+        rw [h1] at this
+        obtain ⟨p, c, ht, _⟩ := this
+        simp only at ht
+        rw [h] at ht
+        simp at ht
+      · have F := Pre_frame [Ev.openPart true true p] plan
+        exact key _ (Or.inr ⟨p, frame_finishG F cfg _ _ (frame_runOps F _ _ h)⟩)
+
+/-! ### from C04's automaton on the successful events to the C05 automaton on the observations -/
+
+theorem St_run_filter : ∀ (l : List Ev) (s : St), s.run (l.filter notNoop) = s.run l
+  | [], _ => rfl
+  | ev :: l, s => by
+    cases ev with
+    | noop => simp [List.filter, notNoop, St.run, St.step, St_run_filter l s]
+    | _ =>
+      simp only [List.filter, notNoop, St.run]
+      split
+      · exact St_run_filter l _
+      · rfl
+
+theorem headUnlink_filter : ∀ (l : List Ev), headUnlink (l.filter notNoop) = headUnlink l
+  | [] => rfl
+  | ev :: l => by cases ev <;> simp [List.filter, notNoop, headUnlink, headUnlink_filter l]
+
+theorem publishes_filter : ∀ (l : List Ev), publishes (l.filter notNoop) = publishes l
+  | [] => rfl
+  | ev :: l => by cases ev <;> simp [List.filter, notNoop, publishes, publishes_filter l]
+
+theorem allWrites_filter : ∀ (l : List Ev), allWrites (l.filter notNoop) = allWrites l
+  | [] => rfl
+  | ev :: l => by cases ev <;> simp [List.filter, notNoop, allWrites, allWrites_filter l]
+
+theorem mode_filter (um : Nat) : ∀ (l : List Ev) (cur : Option Nat),
+    (l.filter notNoop).foldl (modeAfter um) cur = l.foldl (modeAfter um) cur
+  | [], _ => rfl
+  | ev :: l, cur => by cases ev <;> simp [List.filter, notNoop, modeAfter, mode_filter um l]
+
+theorem step_init_same (s s' : St) (ev : Ev) (h0 : s.phase = .init) (hcl : s.isOpen = false) (hs : s.step ev = some s')
+    (h1 : s'.phase = .init) : s' = s := by
+  obtain ⟨ph, op, db, us⟩ := s
+  simp only at h0 hcl; subst h0; subst hcl
+  cases ev <;> simp [St.step] at hs
+  all_goals (try (subst hs; rfl))
+  all_goals (try (obtain ⟨_, rfl⟩ := hs; simp at h1))
+
+theorem step_close_open (s s1 : St) (hs : s.step .close = some s1) : s.isOpen = true := by
+  obtain ⟨ph, op, db, us⟩ := s
+  cases op with
+  | true => rfl
+  | false => simp [St.step] at hs
+
+theorem A_run_total (cfg : Cfg) (raises : Bool) : ∀ (t : List Obs) (a : A) (s' : St),
+    a.s.run (oks t) = some s' →
+    (a.s.phase = .init → a.s.isOpen = false) →
+    (cfg.overwritePart = true ∨ a.s.phase ≠ .init ∨ headUnlink (oks t) = false) →
+    (publishes (oks t) = false ∨
+      (a.failed = false ∧ listedFailed t = false ∧ raises = false ∧ (cfg.overwrite = false → Ev.renamePartDest ∉ oks t))) →
+    ∃ a', a.run cfg raises t = some a' ∧ a'.s = s'
+  | [], a, s', h, _, _, _ => by
+    simp [oks, St.run] at h
+    exact ⟨a, rfl, h⟩
+  | .ok ev :: t, a, s', h, hcl, hst, hpub => by
+    simp only [oks, St.run] at h
+    cases hs : a.s.step ev with
+    | none => simp [hs] at h
+    | some s1 =>
+      simp only [hs] at h
+      have hpc := publishes_cons ev (oks t)
+      have hal : okAllowed cfg raises a ev = true := by
+        have hright : isPub ev = true → a.failed = false ∧ raises = false ∧ (cfg.overwrite = false → Ev.renamePartDest ∉ oks (.ok ev :: t)) := by
+          intro hp
+          rcases hpub with hl | ⟨h1, _, h3, h4⟩
+          · simp only [oks] at hl
+            rw [hpc, publishes_single, hp] at hl
+            simp at hl
+          · exact ⟨h1, h3, h4⟩
+        cases ev with
+        | renamePartDest =>
+          obtain ⟨h1, h3, h4⟩ := hright rfl
+          have how : cfg.overwrite = true := by
+            cases hh : cfg.overwrite with
+            | true => rfl
+            | false => exact absurd (by simp [oks]) (h4 hh)
+          simp [okAllowed, h1, h3, how]
+        | linkPartDest =>
+          obtain ⟨h1, h3, _⟩ := hright rfl
+          simp [okAllowed, h1, h3]
+        | unlinkPart =>
+          simp only [okAllowed]
+          split
+          · rename_i h0
+            rcases hst with h | h | h
+            · exact h
+            · exact absurd h0 h
+            · simp [oks, headUnlink] at h
+          · rfl
+        | _ => simp [okAllowed]
+      have hcl1 : s1.phase = .init → s1.isOpen = false := by
+        intro h1
+        obtain ⟨h0, _⟩ := step_to_init a.s s1 ev hs h1 hcl
+        rw [step_init_same a.s s1 ev h0 (hcl h0) hs h1]
+        exact hcl h0
+      have hst1 : cfg.overwritePart = true ∨ s1.phase ≠ .init ∨ headUnlink (oks t) = false := by
+        rcases hst with h | h | h
+        · exact Or.inl h
+        · exact Or.inr (Or.inl (step_not_init a.s s1 ev hs h))
+        · by_cases h0 : a.s.phase = .init
+          · rcases init_stays a.s s1 ev h0 (hcl h0) hs with h1 | ⟨sd, md, rfl⟩
+            · obtain ⟨_, hev⟩ := step_to_init a.s s1 ev hs h1 hcl
+              rcases hev with rfl | rfl
+              · exact Or.inr (Or.inr (by simpa [oks, headUnlink] using h))
+              · simp [oks, headUnlink] at h
+            · refine Or.inr (Or.inl ?_)
+              simp only [St.step] at hs
+              split at hs
+              · simp at hs; subst hs; simp
+              · simp at hs
+          · exact Or.inr (Or.inl (step_not_init a.s s1 ev hs h0))
+      have hpub1 : publishes (oks t) = false ∨
+          (a.failed = false ∧ listedFailed t = false ∧ raises = false ∧ (cfg.overwrite = false → Ev.renamePartDest ∉ oks t)) := by
+        rcases hpub with hl | ⟨h1, h2, h3, h4⟩
+        · simp only [oks] at hl
+          rw [hpc] at hl
+          simp only [Bool.or_eq_false_iff] at hl
+          exact Or.inl hl.2
+        · exact Or.inr ⟨h1, by simpa [listedFailed] using h2, h3, fun hh hm => h4 hh (by simp [oks, hm])⟩
+      obtain ⟨a', hr, hs'⟩ := A_run_total cfg raises t { a with s := s1 } s' h hcl1 hst1 hpub1
+      exact ⟨a', by simp only [A.run, A.step, hal, if_true, hs, Option.map_some]; exact hr, hs'⟩
+  | .fail l i u :: t, a, s', h, hcl, hst, hpub => by
+    simp only [oks] at h hst hpub
+    have hpub1 : publishes (oks t) = false ∨
+        ((a.failed || (l && !a.s.published)) = false ∧ listedFailed t = false ∧ raises = false ∧
+          (cfg.overwrite = false → Ev.renamePartDest ∉ oks t)) := by
+      rcases hpub with hl | ⟨h1, h2, h3, h4⟩
+      · exact Or.inl hl
+      · simp only [listedFailed, Bool.or_eq_false_iff] at h2
+        exact Or.inr ⟨by simp [h1, h2.1], h2.2, h3, h4⟩
+    obtain ⟨a', hr, hs'⟩ := A_run_total cfg raises t
+      { a with failed := a.failed || (l && !a.s.published), ufail := a.ufail || (i && u) } s' h hcl hst hpub1
+    exact ⟨a', by simp only [A.run, A.step]; exact hr, hs'⟩
+  | .failClosed l :: t, a, s', h, hcl, hst, hpub => by
+    simp only [oks, St.run] at h
+    cases hs : a.s.step .close with
+    | none => simp [hs] at h
+    | some s1 =>
+      simp only [hs] at h
+      have hni : a.s.phase ≠ .init := by
+        intro h0
+        have h1 := hcl h0
+        rw [step_close_open a.s s1 hs] at h1
+        cases h1
+      have hni1 := step_not_init a.s s1 .close hs hni
+      have hpub1 : publishes (oks t) = false ∨
+          ((a.failed || (l && !a.s.published)) = false ∧ listedFailed t = false ∧ raises = false ∧
+            (cfg.overwrite = false → Ev.renamePartDest ∉ oks t)) := by
+        rcases hpub with hl | ⟨h1, h2, h3, h4⟩
+        · simp only [oks] at hl
+          rw [publishes_cons] at hl
+          simp only [Bool.or_eq_false_iff] at hl
+          exact Or.inl hl.2
+        · simp only [listedFailed, Bool.or_eq_false_iff] at h2
+          exact Or.inr ⟨by simp [h1, h2.1], h2.2, h3, fun hh hm => h4 hh (by simp [oks, hm])⟩
+      obtain ⟨a', hr, hs'⟩ := A_run_total cfg raises t
+        { a with s := s1, failed := a.failed || (l && !a.s.published) } s' h (fun h0 => absurd h0 hni1)
+        (Or.inr (Or.inl hni1)) hpub1
+      exact ⟨a', by simp only [A.run, A.step, hs, Option.map_some]; exact hr, hs'⟩
+  | .appear :: t, a, s', h, hcl, hst, hpub => by
+    simp only [oks] at h hst hpub
+    have hpub1 : publishes (oks t) = false ∨
+        (a.failed = false ∧ listedFailed t = false ∧ raises = false ∧ (cfg.overwrite = false → Ev.renamePartDest ∉ oks t)) := by
+      rcases hpub with hl | ⟨h1, h2, h3, h4⟩
+      · exact Or.inl hl
+      · exact Or.inr ⟨h1, by simpa [listedFailed] using h2, h3, h4⟩
+    obtain ⟨a', hr, hs'⟩ := A_run_total cfg raises t { a with env := true } s' h hcl hst hpub1
+    exact ⟨a', by simp only [A.run, A.step]; exact hr, hs'⟩
+
 end C05
